@@ -95,11 +95,6 @@ example : canonAlt (.map [([107], .slice [.uint64 2#64, .float64 0#64, .string [
 
 /-! ## other integer and float widths -/
 
-/-- the Go integer types `ToObject` has a case for -/
-def toObjectWidth : GoVal → Bool
-  | .int64 _ | .int _ | .int32 _ | .uint64 _ | .uint _ | .uintptr _ | .uint8 _ => true
-  | _ => false
-
 /-- `ToObjectAlt` accepts every Go integer type; the result is an Int for signed and a Uint
     for unsigned types and has the same mathematical value. -/
 theorem width_value (C : ConvOps) (g : GoVal) (n : Int) (s : Bool)
